@@ -80,7 +80,7 @@ impl Interp {
         loop {
             let Some(s) = self.next() else { return };
             match s["step"].as_str().unwrap() {
-                "logs" => { let _ = cc.logs_now(); }
+                "logs" => { if self.pos.get() % 2 == 0 { let _ = cc.logs_now(); } else { let _ = cc.logs_wait(); } }
                 "port" => { let _ = cc.address_for_port(8080); }
                 "exec" => { let _ = cc.shell_exec("true"); }
                 "panic" => panic!("scripted panic"),
